@@ -44,13 +44,21 @@ def focused_search(res, pid, binary, cases, meta, diffs, oracle, r):
     kinds = []
     for cid in ids:
         if meta[cid] not in kinds: kinds.append(meta[cid])
-    for rnd in range(10 if kinds else 0):
+    for rnd in range(14 if kinds else 0):
         batch, bmeta = {}, {}
-        for t in range(200):
+        for t in range(300):
             n = r.randint(6, 13)
             E = [(a, b) for a in range(n) for b in range(a + 1, n) if r.random() < r.choice([.25, .4, .55])]
             r.shuffle(E)
             WE = [((a, b, r.randint(1, 30)) if r.random() < .5 else (b, a, r.randint(1, 30))) for (a, b) in E]
+            if t % 2 == 1:
+                # heavy-tailed weights on slightly larger graphs: single edges heavier than whole cycles (where pruning rules that
+                # compare an EDGE weight with the running best fire), supports with >= 4 signed edges
+                n = r.randint(12, 15)
+                E = [(a, b) for a in range(n) for b in range(a + 1, n) if r.random() < r.choice([.35, .45, .5])]
+                r.shuffle(E)
+                hw = lambda: r.randint(1, 4) if r.random() < .8 else r.randint(20, 99)
+                WE = [((a, b, hw()) if r.random() < .5 else (b, a, hw())) for (a, b) in E]
             batch["g%d" % t] = (n, WE, 0, "focused-random"); bmeta["g%d" % t] = kinds[t % len(kinds)]
         text = "".join(render_graph(j, "exact", bmeta[j][1], 0, [bmeta[j][0], "0", "heap=%d" % (r.getrandbits(27) + 1)], c[0], c[1]) for j, c in batch.items())
         rc, out, err = run_harness(binary, text, timeout=1200)
